@@ -2,7 +2,7 @@
 UNITS = [dict(
     name='buffer', harness='harness/c08_buffer.cpp', sources=['repo:src/Memory.cpp'],
     defines={'quick': {'VF_K': 2, 'VF_MAXN': 2, 'VF_CAPB': 3}, 'thorough': {'VF_K': 3, 'VF_MAXN': 2, 'VF_CAPB': 5}},
-    entries=['history', 'step'],
+    entries=['history', 'step', 'self_args'],
     opts={'all': {'unwind': 64}},
     split={'quick': 8, 'thorough': 16},
     budget={'quick': 280, 'thorough': 2600},
